@@ -20,6 +20,7 @@ the stat objects (`H.nodes.degree`, `H.nodes.degree(order=k)`, `H.nodes.degree(w
 import copy
 import json
 import os
+import time
 
 import numpy as np
 import xgi
@@ -280,6 +281,32 @@ class Held:
         self.es = edge_stats(self.ev, P, directed)
         self.nmulti = self.nv.multi(["degree", self.ns["degree_o"], self.ns["attr"]])
         self.emulti = self.ev.multi([self.es["size"], self.es["order_d"], self.es["attr"]])
+        self.filtered = {}        # "n"/"e" -> (ids, held filtered view, held stat on it), created when IDs exist
+
+    def held_filtered(self, ob, T):
+        """filtered views (and a stat on each) held across mutations: while every ID they name is still present
+        they must keep listing those IDs and their stats must show the CURRENT values; once an ID they name has
+        been removed they may raise or be stale (not counted, DESIGN §7) — they are dropped and re-created"""
+        for k, view, ids, stat, tab in (("n", self.nv, T.nodes, "degree", T.memb), ("e", self.ev, T.edges, "size", T.mem)):
+            cur = self.filtered.get(k)
+            if cur is not None and not set(cur[0]) <= set(ids):
+                cur = None
+                self.filtered.pop(k)
+            if cur is None:
+                if len(ids) >= 2:
+                    b = [ids[-1], ids[0]]
+                    fv = view(b)
+                    self.filtered[k] = (list(fv), fv, getattr(fv, stat))
+                continue
+            fids, fv, st = cur
+            s1, got = attempt(lambda: list(fv))
+            s2, d = attempt(st.asdict)
+            vn = type(fv).__name__
+            if s1 != "ok" or got != fids:
+                ob.fail(f"{vn}.__iter__", "held-filtered-view-changed", f"created as {fids}, now {s1} {got}", "held_filtered")
+            if s2 != "ok" or d != {i: len(tab[i]) for i in fids}:
+                ob.fail("IDStat.asdict", "held-stat-on-filtered-view-stale", f"{stat} on held view {fids}: {s2} {d}, incidence says "
+                        f"{ {i: len(tab[i]) for i in fids} }", "held_filtered")
 
 
 # ----------------------------------------------------------------------------- brute-force definitions
@@ -435,9 +462,11 @@ def stat_forms(ob, stat, view_ids, expected, kind, cname, field):
             out["asnumpy"] = [enc_sv(v, kind) for v in al]
         else:
             out["asnumpy"] = "$skip"
-    # aspandas
+    # aspandas (pandas turns tuple keys into a MultiIndex: tuple IDs are outside what a Series index shows)
     st, s = attempt(stat.aspandas)
-    if st != "ok":
+    if any(isinstance(i, tuple) for i in view_ids):
+        out["aspandas"] = "$skip"
+    elif st != "ok":
         ob.fail(f"{cname}.aspandas", "raises", f"{st}: {s}", field); out["aspandas"] = st
     else:
         idx = s.index.tolist()
@@ -507,7 +536,9 @@ def multi_forms(ob, multi, singles, keys, kinds, view_ids, field):
         ob.fail(f"{cname}.aslist", "inner-dict-differs", f"{st}: {ld}", field)
     # asnumpy on the numeric columns only (np.array of mixed rows is numpy's business)
     st, df = attempt(multi.aspandas)
-    if st != "ok":
+    if any(isinstance(i, tuple) for i in view_ids):
+        out["aspandas"] = "$skip"
+    elif st != "ok":
         ob.fail(f"{cname}.aspandas", "raises", f"{st}: {df}", field); out["aspandas"] = st
     else:
         idx, cols = df.index.tolist(), df.columns.tolist()
@@ -636,6 +667,7 @@ def observe(held, T, sp, prev_order=None, op=None):
             s1, v = attempt(lambda: st_[i])
             if s1 != "ok" or v != tab[i]:
                 ob.fail("IDStat.__getitem__", "wrong-value", f"{nm}[{i!r}] = {v!r} vs {tab[i]!r}", "nstats" if nm == "degree" else "estats")
+    held.held_filtered(ob, T)
     # ---- multi
     o["nmulti"] = multi_forms(ob, held.nmulti, [held.ns[k] for k in NMULTI], NMULTI, [KIND.get(k, "num") for k in NMULTI], T.nodes, "nmulti")
     o["emulti"] = multi_forms(ob, held.emulti, [held.es[k] for k in EMULTI], EMULTI, [KIND.get(k, "num") for k in EMULTI], T.edges, "emulti")
@@ -836,6 +868,7 @@ def record_violation(ctx, fam, ops, i, P, sp, f, shrunk):
 
 def compare_model(ctx, fam, histories, all_recs):
     """send the histories (replay) or the states (load/dload) plus the observe requests to the driver and diff"""
+    max_edges = ctx.n(28, 10 ** 9)      # quick tier: installed states with many edges are checked by the predicate only
     reqs, index = [], []
     for hi, (ops, P) in enumerate(histories):
         recs = all_recs[hi]
@@ -845,6 +878,9 @@ def compare_model(ctx, fam, histories, all_recs):
             if fam.mode == "replay":
                 reqs.append(fam.M.to_request(rec["op"])); index.append(("op", hi, oi))
             if rec["obs"] is None:
+                continue
+            if fam.mode != "replay" and len(rec["T"].edges) > max_edges:
+                ctx.stats[f"{fam.name}:state_too_large_for_quick_model_comparison"] += 1
                 continue
             if fam.mode != "replay":
                 reqs.append({"op": "load" if fam.mode == "load" else "dload", **rec["T"].tables()}); index.append(None)
@@ -906,6 +942,7 @@ def compare_model(ctx, fam, histories, all_recs):
 
 def run_family(ctx, fam, n_hist, model_ok, shrunk, hist_len=(1, 22), weights=None, extra=()):
     rng = ctx.rng
+    t0 = time.time()
     histories = [(copy.deepcopy(h["ops"]), h["params"]) for h in extra if h.get("class") == fam.name]
     for _ in range(n_hist):
         histories.append((fam.M.gen_history(rng, hist_len[0], hist_len[1], weights), gen_params(rng)))
@@ -939,7 +976,11 @@ def run_family(ctx, fam, n_hist, model_ok, shrunk, hist_len=(1, 22), weights=Non
                             "nodes": last["obs"].o.get("nodes"), "degree": (last["obs"].o["nstats"]["degree"] or {}).get("asdict")
                             if isinstance(last["obs"].o["nstats"].get("degree"), dict) else None}, cap=3)
     ctx.stats[f"{fam.name}:histories"] = len(histories)
+    t1 = time.time()
     dis = compare_model(ctx, fam, histories, all_recs) if model_ok else []
+    tm = ctx.extra.setdefault("timing_s", {})
+    tm[f"{fam.name}:implementation+predicate"] = round(tm.get(f"{fam.name}:implementation+predicate", 0) + t1 - t0, 1)
+    tm[f"{fam.name}:model"] = round(tm.get(f"{fam.name}:model", 0) + time.time() - t1, 1)
     return dis, histories, all_recs
 
 
@@ -960,6 +1001,7 @@ def corpus_cases():
 
 def run(ctx):
     ok = build_and_audit(ctx, "XgiModel.Props.C06", ["XgiModel.C06.Drive"])
+    ctx.extra["timing_s"] = {"build+audit": round(time.time() - ctx.t0, 1)}
     ctx.rule = ("edit histories of 1-22 public mutator calls (generators of harness/hg.py, sc.py, dhg.py) on Hypergraph, "
                 "SimplicialComplex and DiHypergraph; views, stat objects (degree with order/weight, average_neighbor_degree, "
                 "attrs with missing, size/order with degree, in/out degree, head/tail size/order) and multi-stat objects are "
@@ -970,7 +1012,7 @@ def run(ctx):
     shrunk = set()
     extra = corpus_cases()
     ctx.stats["corpus_histories"] = len(extra)
-    plan = [("Hypergraph", ctx.n(90, 2500)), ("SimplicialComplex", ctx.n(35, 900)), ("DiHypergraph", ctx.n(45, 1200))]
+    plan = [("Hypergraph", ctx.n(90, 2500)), ("SimplicialComplex", ctx.n(30, 700)), ("DiHypergraph", ctx.n(45, 1200))]
     results = {}
     for name, n in plan:
         fam = FAMILIES[name]
